@@ -1,9 +1,622 @@
-//! C15 — (stub; not built yet)
+//! C15 — KernighanLin never increases the cut and preserves part sizes.
+//!
+//! op:  `kl <max_passes|-> <max_flips|-> <max_bad> <wlen> <n> <ids…> <rows> {<deg> {<j> <w>}…}…`
+//!      (CSR rows with strictly increasing column indices, integer-valued `f64` edge
+//!      weights, `wlen` = length of the vertex-weight slice, `-` = `None`)
+//! out: `ok <cut before> <cut after> | <ids>` (cuts as `Topology::edge_cut` of the view
+//!      reports them) | `panic file:line: message`
 
 use crate::common::*;
+use coupe::sprs::CsMat;
+use coupe::Partition as _;
+use coupe::Topology as _;
 
-pub fn generate(_ctx: &mut Ctx) {}
+type Rows = Vec<Vec<(usize, i64)>>;
+
+#[derive(Clone, Debug)]
+struct Case {
+    mp: Option<usize>,
+    mf: Option<usize>,
+    mb: usize,
+    wlen: usize,
+    ids: Vec<usize>,
+    rows: Rows,
+}
+
+fn opt(x: Option<usize>) -> String {
+    match x {
+        Some(v) => v.to_string(),
+        None => "-".into(),
+    }
+}
+
+fn format_op(c: &Case) -> String {
+    let mut s = format!(
+        "kl {} {} {} {} {}",
+        opt(c.mp),
+        opt(c.mf),
+        c.mb,
+        c.wlen,
+        c.ids.len()
+    );
+    for i in &c.ids {
+        s.push_str(&format!(" {}", i));
+    }
+    s.push_str(&format!(" {}", c.rows.len()));
+    for r in &c.rows {
+        s.push_str(&format!(" {}", r.len()));
+        for (j, w) in r {
+            s.push_str(&format!(" {} {}", j, w));
+        }
+    }
+    s
+}
+
+fn parse_opt(t: &str) -> Option<Option<usize>> {
+    if t == "-" {
+        Some(None)
+    } else {
+        t.parse().ok().map(Some)
+    }
+}
+
+fn parse_op(op: &str) -> Option<Case> {
+    let mut it = op.split_whitespace();
+    if it.next()? != "kl" {
+        return None;
+    }
+    let mp = parse_opt(it.next()?)?;
+    let mf = parse_opt(it.next()?)?;
+    let mb: usize = it.next()?.parse().ok()?;
+    let wlen: usize = it.next()?.parse().ok()?;
+    let n: usize = it.next()?.parse().ok()?;
+    let mut ids = Vec::with_capacity(n);
+    for _ in 0..n {
+        ids.push(it.next()?.parse().ok()?);
+    }
+    let r: usize = it.next()?.parse().ok()?;
+    let mut rows = Vec::with_capacity(r);
+    for _ in 0..r {
+        let d: usize = it.next()?.parse().ok()?;
+        let mut row: Vec<(usize, i64)> = Vec::with_capacity(d);
+        for _ in 0..d {
+            let j: usize = it.next()?.parse().ok()?;
+            let w: i64 = it.next()?.parse().ok()?;
+            if let Some(&(pj, _)) = row.last() {
+                if pj >= j {
+                    return None; // not a valid CsMat row
+                }
+            }
+            row.push((j, w));
+        }
+        rows.push(row);
+    }
+    if it.next().is_some() || wlen > 1 << 20 {
+        return None;
+    }
+    Some(Case { mp, mf, mb, wlen, ids, rows })
+}
+
+// ------------------------------------------------------------------ graphs
+
+/// symmetric rows from an undirected edge list (later duplicates are dropped)
+fn from_edges(n: usize, edges: &[(usize, usize, i64)]) -> Rows {
+    let mut rows: Rows = vec![vec![]; n];
+    for &(a, b, w) in edges {
+        if a == b || rows[a].iter().any(|&(j, _)| j == b) {
+            continue;
+        }
+        rows[a].push((b, w));
+        rows[b].push((a, w));
+    }
+    for r in rows.iter_mut() {
+        r.sort();
+    }
+    rows
+}
+
+fn weight(rng: &mut Rng, mode: usize) -> i64 {
+    match mode {
+        0 => 1,
+        1 => rng.range(1, 9),
+        2 => rng.range(1, 1000),
+        _ => *rng.pick(&[1, 1, 1, 2, 5, 100]),
+    }
+}
+
+fn grid_edges(r: usize, c: usize, rng: &mut Rng, wmode: usize) -> Vec<(usize, usize, i64)> {
+    let mut e = vec![];
+    for i in 0..r {
+        for j in 0..c {
+            if j + 1 < c {
+                e.push((i * c + j, i * c + j + 1, weight(rng, wmode)));
+            }
+            if i + 1 < r {
+                e.push((i * c + j, (i + 1) * c + j, weight(rng, wmode)));
+            }
+        }
+    }
+    e
+}
+
+/// (shape name, symmetric graph)
+fn random_graph(rng: &mut Rng, maxn: usize) -> (&'static str, Rows) {
+    let wmode = rng.usize(4);
+    match rng.usize(8) {
+        0 => {
+            // grid
+            let r = 1 + rng.usize(4);
+            let c = (2 + rng.usize(4)).min(maxn / r).max(2);
+            ("grid", from_edges(r * c, &grid_edges(r, c, rng, wmode)))
+        }
+        1 => {
+            // two components without a connecting edge
+            let n = 4 + rng.usize(maxn - 3);
+            let h = 2 + rng.usize(n - 3);
+            let mut e = vec![];
+            for a in 0..n {
+                for b in a + 1..n {
+                    if (a < h) == (b < h) && rng.chance(1, 2) {
+                        e.push((a, b, weight(rng, wmode)));
+                    }
+                }
+            }
+            ("disconnected", from_edges(n, &e))
+        }
+        2 => {
+            // sparse with isolated vertices
+            let n = 3 + rng.usize(maxn - 2);
+            let live = 2 + rng.usize(n - 2);
+            let mut e = vec![];
+            for a in 0..live {
+                for b in a + 1..live {
+                    if rng.chance(1, 2) {
+                        e.push((a, b, weight(rng, wmode)));
+                    }
+                }
+            }
+            // scatter the live vertices among the isolated ones
+            let mut perm: Vec<usize> = (0..n).collect();
+            rng.shuffle(&mut perm);
+            let e: Vec<_> = e.into_iter().map(|(a, b, w)| (perm[a], perm[b], w)).collect();
+            ("isolated", from_edges(n, &e))
+        }
+        3 => {
+            // path / cycle
+            let n = 2 + rng.usize(maxn - 1);
+            let mut e: Vec<_> = (0..n - 1).map(|i| (i, i + 1, weight(rng, wmode))).collect();
+            if n > 2 && rng.chance(1, 2) {
+                e.push((n - 1, 0, weight(rng, wmode)));
+            }
+            ("path_cycle", from_edges(n, &e))
+        }
+        4 => {
+            // complete / star
+            let n = 2 + rng.usize(maxn.min(9) - 1);
+            let star = rng.chance(1, 2);
+            let mut e = vec![];
+            for a in 0..n {
+                for b in a + 1..n {
+                    if !star || a == 0 {
+                        e.push((a, b, weight(rng, wmode)));
+                    }
+                }
+            }
+            (if star { "star" } else { "complete" }, from_edges(n, &e))
+        }
+        _ => {
+            // G(n, p)
+            let n = 2 + rng.usize(maxn - 1);
+            let den = 1 + rng.usize(5) as u64;
+            let mut e = vec![];
+            for a in 0..n {
+                for b in a + 1..n {
+                    if rng.chance(1, den) {
+                        e.push((a, b, weight(rng, wmode)));
+                    }
+                }
+            }
+            ("gnp", from_edges(n, &e))
+        }
+    }
+}
+
+/// two-way 0/1 colouring with both colours used (n >= 2)
+fn random_colouring(rng: &mut Rng, n: usize) -> (&'static str, Vec<usize>) {
+    match rng.usize(5) {
+        0 => {
+            // balanced, shuffled
+            let mut v: Vec<usize> = (0..n).map(|i| usize::from(i >= n / 2)).collect();
+            rng.shuffle(&mut v);
+            ("balanced", v)
+        }
+        1 => {
+            // one vertex alone
+            let mut v = vec![rng.usize(2); n];
+            let k = rng.usize(n);
+            v[k] = 1 - v[k];
+            ("singleton", v)
+        }
+        2 => {
+            // contiguous halves (often locally optimal on paths and grids)
+            let cut = 1 + rng.usize(n - 1);
+            ("contiguous", (0..n).map(|i| usize::from(i >= cut)).collect())
+        }
+        3 => {
+            // alternating (worst case on paths)
+            let o = rng.usize(2);
+            ("alternating", (0..n).map(|i| (i + o) % 2).collect())
+        }
+        _ => {
+            let mut v: Vec<usize> = (0..n).map(|_| rng.usize(2)).collect();
+            if v.iter().all(|&x| x == v[0]) {
+                let k = rng.usize(n);
+                v[k] = 1 - v[k];
+            }
+            ("random", v)
+        }
+    }
+}
+
+fn relabel(rng: &mut Rng, ids: &mut [usize]) -> &'static str {
+    let (name, a, b) = match rng.usize(6) {
+        0 | 1 => ("labels_01", 0, 1),
+        2 => ("labels_37", 3, 7),
+        3 => ("labels_73", 7, 3),
+        4 => ("labels_big", 5, 1_000_000),
+        _ => ("labels_10", 1, 0),
+    };
+    for x in ids.iter_mut() {
+        *x = if *x == 0 { a } else { b };
+    }
+    name
+}
+
+fn random_limits(rng: &mut Rng, n: usize) -> (Option<usize>, Option<usize>, usize) {
+    let mp = match rng.usize(6) {
+        0 => Some(0),
+        1 => Some(1),
+        2 => Some(2 + rng.usize(3)),
+        _ => None,
+    };
+    let mf = match rng.usize(6) {
+        0 => Some(0),
+        1 => Some(1),
+        2 => Some(rng.usize(n + 2)),
+        _ => None,
+    };
+    (mp, mf, rng.usize(4))
+}
+
+pub fn generate(ctx: &mut Ctx) {
+    // ---- exhaustive: every graph on <= N vertices with unit weights x every 2-colouring
+    //      with both colours used x a grid of limits
+    let maxn = if ctx.quick() { 4 } else { 5 };
+    let limits: [(Option<usize>, Option<usize>); 6] = [
+        (None, None),
+        (Some(1), None),
+        (None, Some(1)),
+        (Some(0), None),
+        (None, Some(0)),
+        (Some(2), Some(2)),
+    ];
+    for n in 2..=maxn {
+        let pairs: Vec<(usize, usize)> =
+            (0..n).flat_map(|a| (a + 1..n).map(move |b| (a, b))).collect();
+        for mask in 0u32..(1u32 << pairs.len()) {
+            let edges: Vec<_> = pairs
+                .iter()
+                .enumerate()
+                .filter(|(k, _)| mask >> k & 1 == 1)
+                .map(|(_, &(a, b))| (a, b, 1i64))
+                .collect();
+            let rows = from_edges(n, &edges);
+            for col in 1u32..(1u32 << n) - 1 {
+                let ids: Vec<usize> = (0..n).map(|i| (col >> i & 1) as usize).collect();
+                for &(mp, mf) in &limits {
+                    for mb in 0..3 {
+                        let c = Case { mp, mf, mb, wlen: n, ids: ids.clone(), rows: rows.clone() };
+                        ctx.count("exhaustive");
+                        run_op(ctx, &format_op(&c));
+                    }
+                }
+            }
+        }
+    }
+    ctx.notes.push(format!(
+        "exhaustive sub-space: all graphs on 2..={} vertices (unit weights) x all 2-colourings using both colours x 6 (max_passes, max_flips) settings x max_bad_move 0..=2",
+        maxn
+    ));
+
+    // ---- random symmetric graphs
+    let maxn = if ctx.quick() { 12 } else { 16 };
+    for _ in 0..ctx.budget(3000, 120_000) {
+        let (shape, rows) = random_graph(&mut ctx.rng, maxn);
+        let n = rows.len();
+        let (cshape, mut ids) = random_colouring(&mut ctx.rng, n);
+        let (mp, mf, mb) = random_limits(&mut ctx.rng, n);
+        let mut c = Case { mp, mf, mb, wlen: n, ids: vec![], rows };
+        let mut cshape = cshape;
+        if ctx.rng.chance(1, 6) {
+            // locally optimal input: what an unlimited run returns
+            let (out, _) = run_impl(&Case { mp: None, mf: None, mb: 1, ids: ids.clone(), ..c.clone() });
+            if let Caught::Ok((p, _, _)) = out {
+                ids = p;
+                cshape = "fixpoint";
+            }
+        }
+        let lshape = relabel(&mut ctx.rng, &mut ids);
+        c.ids = ids;
+        ctx.count(&format!("graph_{}", shape));
+        ctx.count(&format!("colouring_{}", cshape));
+        ctx.count(lshape);
+        ctx.count(&format!("max_bad_{}", mb));
+        ctx.count(&format!("max_passes_{}", mp.map_or("none".into(), |v| v.min(2).to_string())));
+        ctx.count(&format!(
+            "max_flips_{}",
+            mf.map_or("none".into(), |v| if v >= 2 { "2+".into() } else { v.to_string() })
+        ));
+        run_op(ctx, &format_op(&c));
+    }
+
+    // ---- outside the property's quantifier (the theorems kl_sizes / kl_cut_le still cover the
+    //      first four, kl_unimplemented the label counts; the rest are the modelled panics)
+    for _ in 0..ctx.budget(400, 8000) {
+        let (_, mut rows) = random_graph(&mut ctx.rng, 8);
+        let n = rows.len();
+        let (_, mut ids) = random_colouring(&mut ctx.rng, n);
+        let (mp, mf, mb) = random_limits(&mut ctx.rng, n);
+        let mut wlen = n;
+        let kind = ctx.rng.usize(10);
+        let name = match kind {
+            0 => {
+                // asymmetric: drop / change one direction of some edges
+                for r in rows.iter_mut() {
+                    for e in r.iter_mut() {
+                        if ctx.rng.chance(1, 3) {
+                            e.1 = ctx.rng.range(1, 9);
+                        }
+                    }
+                    if !r.is_empty() && ctx.rng.chance(1, 3) {
+                        let k = ctx.rng.usize(r.len());
+                        r.remove(k);
+                    }
+                }
+                "asymmetric"
+            }
+            1 => {
+                // negative and zero weights (symmetric)
+                let mut e = vec![];
+                for a in 0..n {
+                    for &(b, _) in rows[a].iter().filter(|&&(b, _)| a < b) {
+                        e.push((a, b, ctx.rng.range(-5, 5)));
+                    }
+                }
+                rows = from_edges(n, &e);
+                "negative_weights"
+            }
+            2 => {
+                // diagonal entries
+                for (v, r) in rows.iter_mut().enumerate() {
+                    if ctx.rng.chance(1, 2) {
+                        r.push((v, ctx.rng.range(1, 9)));
+                        r.sort();
+                    }
+                }
+                "self_loops"
+            }
+            3 => {
+                wlen = if ctx.rng.chance(1, 2) { ctx.rng.usize(n + 1) } else { n + 1 + ctx.rng.usize(3) };
+                "weights_len"
+            }
+            4 => {
+                let l = ctx.rng.usize(2);
+                ids = vec![l; n];
+                "one_label"
+            }
+            5 => {
+                let k = ctx.rng.usize(n);
+                ids[k] = 2;
+                if n >= 3 {
+                    "three_labels"
+                } else {
+                    "two_labels_02"
+                }
+            }
+            6 => {
+                rows.truncate(ctx.rng.usize(n));
+                "rows_missing"
+            }
+            7 => {
+                for _ in 0..1 + ctx.rng.usize(2) {
+                    rows.push(vec![]);
+                }
+                "rows_extra"
+            }
+            8 => {
+                let v = ctx.rng.usize(n);
+                rows[v].push((n + ctx.rng.usize(2), 1));
+                "neighbour_out_of_range"
+            }
+            _ => {
+                ids.clear();
+                rows.clear();
+                wlen = 0;
+                "empty"
+            }
+        };
+        ctx.count(&format!("malformed_{}", name));
+        run_op(ctx, &format_op(&Case { mp, mf, mb, wlen, ids, rows }));
+    }
+}
+
+// ------------------------------------------------------------------ running
+
+type Ran = (Vec<usize>, f64, f64);
+
+/// Run the real `KernighanLin::partition`; returns (ids after, edge_cut before, edge_cut after)
+/// and whether the matrix could be built.
+fn run_impl(c: &Case) -> (Caught<Ran>, bool) {
+    let nrows = c.rows.len();
+    let ncols = c
+        .rows
+        .iter()
+        .flat_map(|r| r.iter().map(|&(j, _)| j + 1))
+        .max()
+        .unwrap_or(0)
+        .max(nrows);
+    let mut indptr = vec![0usize];
+    let mut indices = vec![];
+    let mut data = vec![];
+    for r in &c.rows {
+        for &(j, w) in r {
+            indices.push(j);
+            data.push(w as f64);
+        }
+        indptr.push(indices.len());
+    }
+    let Ok(mat) = CsMat::try_new((nrows, ncols), indptr, indices, data) else {
+        return (Caught::Hang, false);
+    };
+    let ids0 = c.ids.clone();
+    let weights = vec![1.0f64; c.wlen];
+    let (mp, mf, mb) = (c.mp, c.mf, c.mb);
+    let r = catch_timeout(20, move || {
+        let mut p = ids0.clone();
+        coupe::KernighanLin {
+            max_passes: mp,
+            max_flips_per_pass: mf,
+            max_imbalance_per_flip: None,
+            max_bad_move_in_a_row: mb,
+        }
+        .partition(&mut p, (mat.view(), &weights[..]))
+        .unwrap();
+        let before = mat.view().edge_cut(&ids0);
+        let after = mat.view().edge_cut(&p);
+        (p, before, after)
+    });
+    (r, true)
+}
+
+/// Oracle's own cut: dense matrix, every unordered pair {i, j} with different labels counted
+/// once with the weight stored at (max, min) – for a symmetric matrix the textbook edge cut.
+fn brute_cut(n: usize, dense: &[i64], ids: &[usize]) -> i64 {
+    let mut s = 0;
+    for i in 0..n {
+        for j in 0..i {
+            if ids[i] != ids[j] {
+                s += dense[i * n + j];
+            }
+        }
+    }
+    s
+}
 
 pub fn run_op(ctx: &mut Ctx, op: &str) {
-    ctx.record(op.to_string(), "bad-op".into(), false);
+    let Some(c) = parse_op(op) else {
+        ctx.record(op.to_string(), "bad-op".into(), false);
+        return;
+    };
+    let n = c.ids.len();
+    let (res, built) = run_impl(&c);
+    if !built {
+        ctx.record(op.to_string(), "bad-op".into(), false);
+        return;
+    }
+    // classification of the input (independent of the model)
+    let mut labels: Vec<usize> = c.ids.clone();
+    labels.sort();
+    labels.dedup();
+    let two_way = labels.len() == 2;
+    let well_formed = c.rows.len() == n && c.rows.iter().all(|r| r.iter().all(|&(j, _)| j < n));
+    let mut dense = vec![0i64; n * n];
+    let mut symmetric = well_formed;
+    let mut positive = true;
+    let mut nedges = 0;
+    if well_formed {
+        for (v, r) in c.rows.iter().enumerate() {
+            for &(j, w) in r {
+                dense[v * n + j] = w;
+                positive &= w > 0 && j != v;
+                nedges += 1;
+            }
+        }
+        for i in 0..n {
+            for j in 0..n {
+                symmetric &= dense[i * n + j] == dense[j * n + i];
+            }
+        }
+    }
+    // the property's quantifier
+    let in_scope = two_way && well_formed && symmetric && positive && c.wlen == n;
+    let nontrivial = in_scope && nedges > 0;
+
+    let mut verdict: Option<(&str, String)> = None;
+    let out = match res {
+        Caught::Ok((p, before, after)) => {
+            // oracle (on every input the implementation accepts, in scope or not)
+            let mut a = c.ids.clone();
+            let mut b = p.clone();
+            a.sort();
+            b.sort();
+            if p.len() != n {
+                verdict = Some(("kl-length", format!("{} ids in, {} out", n, p.len())));
+            } else if a != b {
+                verdict = Some((
+                    "kl-part-sizes",
+                    format!("label multiset changed: {:?} -> {:?}", c.ids, p),
+                ));
+            } else if well_formed {
+                let (cb, ca) = (brute_cut(n, &dense, &c.ids), brute_cut(n, &dense, &p));
+                if ca > cb {
+                    verdict = Some((
+                        "kl-cut-increased",
+                        format!("edge cut {} -> {} ({:?} -> {:?})", cb, ca, c.ids, p),
+                    ));
+                } else if cb as f64 != before || ca as f64 != after {
+                    verdict = Some((
+                        "kl-edge-cut-value",
+                        format!("edge_cut reports {} / {}, brute force {} / {}", before, after, cb, ca),
+                    ));
+                }
+                if symmetric {
+                    // each undirected edge once, from the other triangle as well
+                    let mut up = 0;
+                    for i in 0..n {
+                        for j in i + 1..n {
+                            if p[i] != p[j] {
+                                up += dense[i * n + j];
+                            }
+                        }
+                    }
+                    if up != ca && verdict.is_none() {
+                        verdict = Some(("kl-oracle-internal", format!("{} vs {}", up, ca)));
+                    }
+                }
+                if p != c.ids {
+                    ctx.count(if ca < cb { "moved_cut_lower" } else { "moved_cut_equal" });
+                } else {
+                    ctx.count("unchanged");
+                }
+            }
+            format!("ok {} {} | {}", before as i64, after as i64, join(&p))
+        }
+        Caught::Panic(m) => {
+            if in_scope || (two_way && well_formed) {
+                // kl_total: no panic on a well-formed graph and a two-way partition
+                verdict = Some(("panic", format!("{} [{}]", m, panic_sig(&m))));
+            }
+            format!("panic {}", m)
+        }
+        Caught::Hang => {
+            verdict = Some(("hang", "watchdog (20 s)".into()));
+            "hang".into()
+        }
+    };
+    ctx.count(out.split(' ').next().unwrap_or(""));
+    ctx.count(if in_scope { "in_scope" } else { "out_of_scope" });
+    let idx = ctx.record(op.to_string(), out, nontrivial);
+    if let Some((sig, what)) = verdict {
+        ctx.fail(idx, sig, what);
+    }
 }
